@@ -114,6 +114,49 @@ def normTree (t : String) : String :=
     | [p, _, c] => if c == "-" && p.startsWith "2e70632f" then s!"{p}:*:{c}" else e
     | _ => e))
 
+/-- only the last line of a file may lack its newline (then the lines are exactly what splitting the
+file's bytes gives back) -/
+def termOK : List Bytes → Bool
+  | [] => true
+  | [_] => true
+  | l :: rest => l.getLast? == some 10 && termOK rest
+
+/-- Class of the known finding `unterminated-line-mid-file`: while the patches of this invocation are
+applied (up to and including the failing one), some file patch leaves a file whose in-memory lines have
+a line without newline that is not the last one — an offset / fuzz placement put lines behind an
+unterminated last line, or a `\ No newline` line in front of other lines.  From then on the in-memory
+lines are not what re-reading the saved bytes gives, and later hunks can match differently than they
+would after a flush. -/
+def termBroken (fs : FS) (cfg : Cfg) (range : List Series.Entry) : Bool := Id.run do
+  let mut t : Abs.ATree := []
+  for entry in range do
+    match patchKey cfg entry.name with
+    | none => return false
+    | some pk =>
+      match fs.readFile pk with
+      | .error _ => return false
+      | .ok (bytes, _) =>
+        match Parse.parsePatch bytes entry.strip false with
+        | .error _ => return false
+        | .ok patch =>
+          let mut t' := t
+          let mut ok := true
+          for fp in patch.fps do
+            match Abs.applyFP t' fs cfg entry fp with
+            | .error _ => return false
+            | .ok r =>
+              t' := r.tree
+              ok := ok && r.ok
+              if t'.any (fun e => !termOK e.2.content) then return true
+          if ok then t := t' else return false
+  return false
+
+def termBrokenInv (fs : FS) (a : String) : Bool :=
+  let inv := parseArgs (if a == "-" then [] else a.splitOn " ") ()
+  match plan inv.cfg fs with
+  | .apply range => termBroken fs inv.cfg range
+  | _ => false
+
 /-- `pushSpec` evaluated against the implementation: starting from the tree the implementation left
 after the previous invocation, the exit status and the whole resulting tree must be what the
 specification says -/
@@ -123,8 +166,11 @@ def specVerdict (fs0 : FS) (invs impl : List String) : String := Id.run do
     let inv := parseArgs (if a == "-" then [] else a.splitOn " ") ()
     let sp := Spec.pushSpec inv.cfg fs
     let implTree := fieldOf r "tree"
-    if fieldOf r "exit" != toString sp.exit then return s!"FAIL:exit(spec={sp.exit})"
-    if implTree != renderTree sp.fs then return s!"FAIL:tree spectree={renderTree sp.fs}"
+    let known := termBrokenInv fs a
+    if fieldOf r "exit" != toString sp.exit then
+      return (if known then "KNOWN:unterminated-line-mid-file" else s!"FAIL:exit(spec={sp.exit})")
+    if implTree != renderTree sp.fs then
+      return (if known then "KNOWN:unterminated-line-mid-file" else s!"FAIL:tree spectree={renderTree sp.fs}")
     fs := parseTree implTree
   return "ok"
 
@@ -203,6 +249,7 @@ def c13 (fs0 : FS) (invs impl : List String) (specV : String) : String := Id.run
       | .error _ => pure ()
     | _ => pure ()
     fs := parseTree (fieldOf r "tree")
+  if specV.startsWith "KNOWN:" then return specV
   if specV != "ok" then return "FAIL:" ++ (specV.splitOn " ").headD ""
   if dup then return "KNOWN:dup-entry-rej-overwrite"
   return "ok"
@@ -244,8 +291,9 @@ def step (fields : List String) : String :=
     -- patches of the range parse (the parallel driver parses the whole range up front)
     let specV := specVerdict (parseTree tree) invs impl
     let c06 := if !par then "na" else if !(invs.all (rangeParses (parseTree tree))) then "na"
+               else if specV.startsWith "KNOWN:" then specV
                else if specV != "ok" then "FAIL:differs-from-single-threaded:" ++ (specV.splitOn " ").headD "" else if !ok then "MODEL" else "ok"
-    s!"{cid} eq={boolS (ok || c06 == "na" && par)} firstbad={optNatS firstBad} C06={c06} SPEC={specVerdict (parseTree tree) invs impl} ABS={absVerdict (parseTree tree) invs impl} C08S={c08Statement (parseTree tree) invs impl} C13={c13 (parseTree tree) invs impl specV} C10={c10 invs impl} C15={c15 impl} C19={c19 impl} C11={c11 impl} model={"|".intercalate m}"
+    s!"{cid} eq={boolS (ok || c06 == "na" && par)} firstbad={optNatS firstBad} C06={c06} SPEC={specV} ABS={absVerdict (parseTree tree) invs impl} C08S={c08Statement (parseTree tree) invs impl} C13={c13 (parseTree tree) invs impl specV} C10={c10 invs impl} C15={c15 impl} C19={c19 impl} C11={c11 impl} model={"|".intercalate m}"
   | _ => "bad-line"
 
 /-- Engine `F` (C18): one invocation with the k-th file-system write failing.
